@@ -282,8 +282,8 @@ Proof. vm_compute. reflexivity. Qed.
    (which capture group / constant / processor field feeds which event field, outcome, metric calls,
    whether and with which credential the login is handed on).  For the 18 handlers that have a
    sketch, the hand-written handler of Model/SshdProc.v IS the interpretation of that sketch; the
-   two without one (public key: three branches; invalid certificate: no regex) are tied by the
-   correspondence check only. *)
+   two without a flat sketch (public key: three branches; invalid certificate: no regex) are covered
+   by the decision-tree form below. *)
 Theorem C06_handlers_from_source : forall h hs, handler_sketch h = Some hs ->
   forall c tok line wok ready, run_sketch hs c tok line wok ready = Some (run_handler h c tok line wok ready).
 Proof. exact run_sketch_is_run_handler. Qed.
@@ -293,3 +293,13 @@ Theorem C06_handlers_without_sketch : forall h, handler_sketch h = None ->
   h = h_processAcceptPublicKeyEntry \/ h = h_processCertificateInvalidEntry.
 Proof. exact sketch_coverage. Qed.
 Print Assumptions C06_handlers_without_sketch.
+
+(* All 20 handlers: the hand-written handler IS the interpretation [run_generated] of the decision tree that
+   go2v regenerates from the handler's Go body on every run (Gen/SshdHandlers.v: [handler_prog]); this
+   includes the three-branch public-key handler (second regex on the rest of the line, slice start
+   len(match)+1 with its panic guard) and the invalid-certificate handler (reason = line from the length
+   of the prefix literal on, fallback text). *)
+Theorem C06_all_handlers_from_source : forall h c tok line wok ready,
+  run_generated h c tok line wok ready = Some (run_handler h c tok line wok ready).
+Proof. exact all_handlers_from_source. Qed.
+Print Assumptions C06_all_handlers_from_source.
